@@ -267,6 +267,7 @@ def run(prog, chk):
 
     fold_rule(prog, chk)
     refill_transparency(prog, chk)
+    source_accounting(prog, chk)
     r3 = chk.rule("R3-window-rebased", "whenever get_more_chars moves the buffered data it re-bases text_start, tvalue_start, "
                   "next_char and buffer_limit", primary=False, floor=2)
     g = prog.fn(REFILL_ROOT)
@@ -367,3 +368,97 @@ def refill_transparency(prog, chk):
                         r5.ok(key, "carried across refills untouched: %s" % ", ".join(carried))
     if n_pairs < 5:
         raise Broken("only %d scan loops with a per-buffer / per-character nesting found" % n_pairs)
+
+
+def _is_read_func(n):
+    return n.get("k") == "call" and n.get("callee") is None and n.get("fn") is not None \
+        and (path(strip(n["fn"])) or "").endswith("read_func")
+
+
+def source_accounting(prog, chk):
+    """R6: every character the character source delivers ends up in the scan window, and a CR LF pair is one line
+    terminator even when the two characters arrive in different reads.
+      (a) after `n = read_func(src, dest, MAX, ...)` with MAX other than the constant 1, every later store to buffer_limit on
+          the way out mentions n (a constant increment would drop the other characters read);
+      (b) in get_more_chars a CR is rewritten to a newline either where the following character is known to be inside the
+          data just read (`p + 1 < end` holds), or the function records in the scanner that the read ended in a CR, so that
+          the next call can drop the LF completing the pair."""
+    r6 = chk.rule("R6-character-source-accounting", "all characters obtained from read_func are added to buffer_limit; a CR ending "
+                  "a read is remembered in the scanner (or only rewritten with its successor in view)", floor=3)
+    n_reads = 0
+    for fn in prog.all_functions():
+        if fn.unit != "parser.c":
+            continue
+        for (b, i, r, c) in fn.eval_sites("call"):
+            if not _is_read_func(c) or len(c.get("args", [])) < 3:
+                continue
+            n_reads += 1
+            mx = const(c["args"][2])
+            resvar = None
+            for x in walk(r):
+                if x.get("k") == "asg" and any(y.get("id") == c.get("id") for y in walk(x.get("rhs"))):
+                    resvar = path(strip(x.get("lhs")))
+            key = "%s:read_func@L%s" % (fn.name, c.get("l"))
+            after = cfgq.reach(fn, [b.id])
+            stores = [(b2, i2, a) for (b2, i2, r2, a) in fn.eval_sites("asg")
+                      if (path(strip(a.get("lhs"))) or "").endswith("buffer_limit") and ((b2.id == b.id and i2 > i) or (b2.id != b.id and b2.id in after))]
+            if mx == 1:
+                r6.ok(key, "asks for one character")
+                continue
+            bad = None
+            for (b2, i2, a) in stores:
+                mentions = resvar is not None and any(path(y) == resvar for y in walk(a.get("rhs")) if y.get("k") == "ref")
+                if not mentions and a.get("op") in ("+=", "="):
+                    # a reset to 0 / to the count of retained characters before the read is not an accounting store
+                    if cfgq.must_precede(fn, (b.id, i), [(b2.id, i2)]) and not (b2.id in after and b2.id != b.id):
+                        continue
+                    bad = a
+            if bad is not None and resvar is not None:
+                r6.violation(fn.file, fn.name, bad.get("l"), "read-not-accounted:%s" % fn.name,
+                             "read_func is asked for up to `%s` characters at L%s, but afterwards buffer_limit is updated by `%s` "
+                             "(L%s), which does not depend on the number read (%s): every character beyond the first is dropped"
+                             % (show(c["args"][2]), c.get("l"), show(bad), bad.get("l"), resvar))
+            else:
+                r6.ok(key, "buffer_limit updated from the count read")
+    if n_reads < 3:
+        raise Broken("only %d read_func call sites found" % n_reads)
+    # (b)
+    g = prog.fn(REFILL_ROOT)
+    CR, NL = 13, 10
+    rewrites = [(b.id, i, a) for (b, i, r, a) in g.eval_sites("asg")
+                if strip(a.get("lhs")).get("k") == "un" and strip(a.get("lhs")).get("op") == "*" and const(a.get("rhs")) == NL]
+    if not rewrites:
+        raise Broken("no `*p = UCHAR_NL` rewrite found in %s" % REFILL_ROOT)
+
+    def ahead(cnd):
+        c = strip(cnd)
+        if isinstance(c, dict) and c.get("k") == "bin" and c.get("op") == "<":
+            l = strip(c.get("lhs"))
+            if isinstance(l, dict) and l.get("k") == "bin" and l.get("op") == "+" and const(l.get("rhs")) == 1:
+                return "true"
+        return None
+    ge = cfgq.guard_edges(g, ahead)
+    blind = [(bid, idx, a) for (bid, idx, a) in rewrites if not (ge and cfgq.must_pass_edge(g, bid, ge))]
+    remembered = []
+    for (b, i, r, a) in g.eval_sites("asg"):
+        lp = path(strip(a.get("lhs"))) or ""
+        if lp.startswith("scanner->") and const(a.get("rhs")) not in (None, 0):
+            # guarded by a test that some character equals CR?
+            def is_cr(cnd):
+                c = strip(cnd)
+                if isinstance(c, dict) and c.get("k") == "bin" and c.get("op") == "==" and CR in (const(c.get("lhs")), const(c.get("rhs"))):
+                    return "true"
+                return None
+            ce = cfgq.guard_edges(g, is_cr)
+            if ce and cfgq.must_pass_edge(g, b.id, ce):
+                remembered.append((lp, a.get("l")))
+    if not blind:
+        r6.ok("%s:cr-rewrite" % REFILL_ROOT, "%d rewrite(s), each with the successor in view" % len(rewrites))
+    elif remembered:
+        r6.ok("%s:cr-rewrite" % REFILL_ROOT, "a read ending in CR is recorded in %s (L%s)" % remembered[0])
+    else:
+        bid, idx, a = blind[0]
+        r6.violation(g.file, g.name, a.get("l"), "cr-at-end-of-read:%s" % REFILL_ROOT,
+                     "the CR at L%s is rewritten to a newline also when it is the last character of the read (the guard `p + 1 < "
+                     "end` failed), and nothing is stored in the scanner to say so: if the next read starts with the LF of the same "
+                     "CR LF pair, that LF is delivered as a second line terminator" % a.get("l"))
